@@ -493,7 +493,97 @@ class Paf(Container):
         return out
 
 
-CONTAINERS = [Avr(), Ircam(), Paf()]
+# ---------------------------------------------------------------- SVX
+
+def iff_walk(b):
+    """chunks (id, offset of the size field, size) of an IFF walk the way svx_read_header does it (no pad bytes)"""
+    out, pos = [], 12
+    while pos + 8 <= len(b):
+        cid, size = b[pos:pos + 4], struct.unpack(">I", b[pos + 4:pos + 8])[0]
+        out.append((cid, pos + 4, size))
+        if cid == b"VHDR":
+            pos += 8 + 20
+        else:
+            pos += 8 + size
+    return out
+
+
+class Svx(Container):
+    name, major = "svx", 0x06
+    codecs = (0x01, 0x02)
+    channels = (1,)
+    path_route = True
+    KF_RATE = "KF-RATE16-WRAP"
+
+    def expected_rate(self, job):
+        return job.sr % 65536
+
+    def rate_known(self, job, reopen_line):
+        if reopen_line.startswith("open=NULL") and job.sr % 65536 == 0:
+            return self.KF_RATE
+        return None
+
+    def model_cfg(self, job):
+        return "codec=%02x endian=%d ch=%d sr=%d" % (job.f.codec, job.f.endian >> 28, job.ch, job.sr)
+
+    def size_fields(self, job, final, fr):
+        probs = []
+        if len(final) < 12 or struct.unpack(">I", final[4:8])[0] != (len(final) - 8) % 2 ** 32:
+            probs.append("FORM size field %s, file length - 8 = %d" % (final[4:8].hex(), len(final) - 8))
+        ch = iff_walk(final)
+        body = [c for c in ch if c[0] == b"BODY"]
+        if len(body) != 1 or body[0][2] != job.n * job.bw or body[0][1] + 4 + body[0][2] != len(final):
+            probs.append("BODY chunk %s for %d audio bytes in a file of %d bytes" % (body, job.n * job.bw, len(final)))
+        vh = [c for c in ch if c[0] == b"VHDR"]
+        if len(vh) != 1 or struct.unpack(">I", final[vh[0][1] + 4:vh[0][1] + 8])[0] != fr % 2 ** 32:
+            probs.append("VHDR oneShotHiSamples does not hold the %d frames of the file" % fr)
+        nm = [c for c in ch if c[0] == b"NAME"]
+        if len(nm) != 1 or final[nm[0][1] + 4:nm[0][1] + 4 + nm[0][2]].rstrip(b"\0") != job.fname:
+            probs.append("NAME chunk does not hold the file name %r" % job.fname)
+        return probs
+
+    def mutants(self, job, b, rng, full):
+        chunks = iff_walk(b)
+        body = [c for c in chunks if c[0] == b"BODY"]
+        hdr_end = body[0][1] + 4 if body else len(b)
+        out = truncations(b, hdr_end, rng, True)
+        for (cid, off, size) in [(b"FORM", 4, struct.unpack(">I", b[4:8])[0])] + chunks:
+            for d in (-1, 1, 2, -8, 3):
+                if 0 <= size + d < 2 ** 32:
+                    out.append(("%s.size%+d" % (cid.decode("latin1"), d), put(b, off, struct.pack(">I", size + d))))
+            out.append(("%s.size=huge" % cid.decode("latin1"), put(b, off, struct.pack(">I", rng.choice([0x7FFFFFFF, 0x80000000, 0xFFFF0000, 0xFFFEFFFF, 0xFFFFFFFF, 256, 255, 40000])))))
+        bounds = [12] + [off + 4 + (20 if cid == b"VHDR" else size) for (cid, off, size) in chunks if cid != b"BODY"]
+        ins = [b"AUTH\x00\x00\x00\x04abcd", b"(c) \x00\x00\x00\x02ab", b"CHAN\x00\x00\x00\x04\x00\x00\x00\x06", b"CHAN\x00\x00\x00\x04\x00\x00\x00\x02",
+               b"CHAN\x00\x00\x00\x08\x00\x00\x00\x06abcd", b"CHAN\x00\x00\x00\x02\x00\x06", b"abcd\x00\x00\x00\x05hello", b"JUNK\x00\x00\x00\x00",
+               b"ab\x01d\x00\x00\x00\x02xy", b"\x00\x00\x00\x00\x00\x00\x00\x00", b"\x01", b"\x01\x02\x03\x04\x05", b"NAME\x00\x00\x01\x00" + bytes(256), b"NAME\x00\x00\x00\xff" + b"n" * 255,
+               b"FORM\x00\x00\x00\x048SVX", b"ANNO\x00\x00\x00\x03abc", b"VHDR\x00\x00\x00\x14" + bytes(12) + b"\x1f\x40\x01\x00\x00\x00\x00\xff", b"big!\x00\x00\x9c\x40" + bytes(40000),
+               b"ATAK\x00\x00\x00\x06abcdef", b"odd1\x00\x00\x00\x03abc"]
+        for p in bounds:
+            for x in (ins if full else rng.sample(ins, 6)):
+                out.append(("ins@%d:%s" % (p, x[:4].hex()), b[:p] + x + b[p:]))
+        out.append(("append-chunk", b + b"tail\x00\x00\x00\x02ab"))
+        out.append(("append-short", b + b"xy"))
+        out.append(("append-4", b + b"wxyz"))
+        vh = [c for c in chunks if c[0] == b"VHDR"]
+        if vh:
+            o = vh[0][1] + 4
+            for v in (0, 1, 0xFFFF, 0x8000):
+                out.append(("sps=%d" % v, put(b, o + 12, struct.pack(">H", v))))
+            for v in (1, 2, 255):
+                out.append(("compression=%d" % v, put(b, o + 15, bytes([v]))))
+            out.append(("octave=3", put(b, o + 14, b"\x03")))
+            out.append(("frames=rnd", put(b, o, struct.pack(">I", rng.randrange(2 ** 32)))))
+            if body:
+                v0, b0 = vh[0][1] - 4, body[0][1] - 4
+                out.append(("body-before-vhdr", b[:v0] + b[b0:] + b[v0:b0]))
+                out.append(("no-vhdr", b[:v0] + b[v0 + 28:]))
+        out.append(("type-swapped", b[:8] + (b"16SV" if b[8:12] == b"8SVX" else b"8SVX") + b[12:]))
+        out.append(("type=8SVY", b[:8] + b"8SVY" + b[12:]))
+        out.append(("not-form", b"FORN" + b[4:]))
+        return out
+
+
+CONTAINERS = [Avr(), Ircam(), Paf(), Svx()]
 
 
 def run(ctx, found=False):
